@@ -60,3 +60,32 @@ Definition known_deviations : list dev := [
   ("Simulation", "python_unit_t", "python_unit_l", "name");
   ("Simulation", "python_unit_l", "python_unit_m", "name");
   ("Simulation", "python_unit_m", "python_unit_t", "name")].
+
+(* documentation paths (sim.<path> / r-><path>) -> python class, property, option dictionary ("" = named callbacks),
+   normalisation the setter applies (Model.normalise) *)
+Definition doc_rules : list docrule := [
+  ("integrator", "Simulation", "integrator", "INTEGRATORS", 1%Z);
+  ("gravity", "Simulation", "gravity", "GRAVITIES", 1%Z);
+  ("collision", "Simulation", "collision", "COLLISIONS", 1%Z);
+  ("boundary", "Simulation", "boundary", "BOUNDARIES", 1%Z);
+  ("ri_whfast.kernel", "IntegratorWHFast", "kernel", "WHFAST_KERNELS", 2%Z);
+  ("ri_whfast.coordinates", "IntegratorWHFast", "coordinates", "WHFAST_COORDINATES", 1%Z);
+  ("ri_saba.type", "IntegratorSABA", "type", "SABA_TYPES", 3%Z);
+  ("ri_eos.phi0", "IntegratorEOS", "phi0", "EOS_TYPES", 3%Z);
+  ("ri_eos.phi1", "IntegratorEOS", "phi1", "EOS_TYPES", 3%Z);
+  ("ri_trace.peri_mode", "IntegratorTRACE", "peri_mode", "TRACE_PERI_MODES", 0%Z);
+  ("collision_resolve", "Simulation", "collision_resolve", "", 0%Z);
+  ("ri_mercurius.L", "IntegratorMercurius", "L", "", 0%Z);
+  ("ri_trace.S", "IntegratorTRACE", "S", "", 0%Z);
+  ("ri_trace.S_peri", "IntegratorTRACE", "S_peri", "", 0%Z)].
+
+(* known, reported documentation defects: none open (docs/boundaryconditions.md `reb_boundary_periodic` was fixed in /repo
+   commit a8196ca) *)
+Definition known_doc_deviations : list ddev := [].
+
+(* naming rule of the built-in callbacks a setter accepts by name *)
+Definition named_callback_prefixes : list (string * string * string) := [
+  ("Simulation", "collision_resolve", "reb_collision_resolve_");
+  ("IntegratorMercurius", "L", "reb_integrator_mercurius_L_");
+  ("IntegratorTRACE", "S", "reb_integrator_trace_switch_");
+  ("IntegratorTRACE", "S_peri", "reb_integrator_trace_switch_peri_")].
